@@ -337,13 +337,32 @@ def r5_7(ctx: Ctx) -> RuleResult:
                        construct=f"except {short(h.type)} shadowed")
             else:
                 rr.ok(fn.loc(h), f"except {short(h.type) if h.type else ''} reachable")
-            if tf in types and not any(esc.catches(p, tf) for p in seen):
+            if any(esc.catches(x, tf) for x in types) and not any(esc.catches(p, tf) for p in seen):
                 raised = [
                     esc.exc_name(fn, r.exc) for r in ast.walk(h) if isinstance(r, ast.Raise) and r.exc is not None
                 ]
                 bare = any(isinstance(r, ast.Raise) and r.exc is None for r in ast.walk(h))
                 if bare or (raised and all(x == tf for x in raised)):
                     preserved = True
+                elif h.name:
+                    # one clause for several classes that tells the test failure apart with isinstance()
+                    from .common import isinstance_classes
+                    from .common import path_conditions
+
+                    def is_tf(r: ast.Raise) -> Optional[bool]:
+                        for t_, b_ in path_conditions(fn.node, r):
+                            ic = isinstance_classes(t_)
+                            if ic is not None and ic[0] == h.name and any(
+                                (ctx.repo.get_class(c) is not None and ctx.repo.get_class(c).qualname == tf) for c in ic[1]  # type: ignore[union-attr]
+                            ):
+                                return b_
+                        return None
+
+                    rs = [r for r in ast.walk(h) if isinstance(r, ast.Raise) and r.exc is not None]
+                    keeps = [r for r in rs if esc.exc_name(fn, r.exc) == tf and is_tf(r) is True]
+                    others = [r for r in rs if esc.exc_name(fn, r.exc) != tf]
+                    if keeps and all(is_tf(r) is False for r in others):
+                        preserved = True
             seen.extend(types)
         if preserved:
             rr.ok(fn.loc(t), "a failed test is re-raised as JSONPatchTestFailure")
